@@ -38,7 +38,7 @@ func (m *c17Remote) fetch(p []byte, off int64) (int, error) {
 		m.lastFail = true
 		return 0, io.ErrUnexpectedEOF
 	}
-	if m.mayFail && verifBool("fetch_fails") {
+	if m.mayFail && verifChoice("fetch_fails", 2) == 1 {
 		m.fails++
 		m.lastFail = true
 		return 0, c17ErrRemote
@@ -149,67 +149,91 @@ func c17CheckGet(m *c17Remote, id string, start, ln int64, got []byte, err error
 	verifAssert(bytes.Equal(got, m.data[s:s+len(got)]), id+": returned bytes differ from the remote bytes at that range")
 }
 
-// C17.step — inductive step. Pre-state: a cache with 0..K entries at arbitrary valid ranges
-// (any mutual position: disjoint, adjacent, overlapping, nested, equal to the request, empty)
-// satisfying the representation invariant. One operation with arbitrary 64-bit arguments.
-// Post: result as the property demands and the invariant still holds.
-func VerifC17Step() {
-	const id = "C17.step"
-	size := verifParam("size", 4)
-	maxK := verifParam("entries", 2)
-	rc, m := c17New(size, true)
-	ctx := context.Background()
+// c17Args picks the (start, ln) arguments of one operation: either one of the valid ranges of
+// the file (concrete, one path each) or ANY pair of 64-bit values that is not a range inside the
+// file (symbolic: negative start or length, past the end, start+ln overflowing int64).
+func c17Args(m *c17Remote, size int) (start, ln int64, valid bool) {
+	mode := verifChoice("args", c17NumRanges(size)+1)
+	if mode == 0 {
+		start, ln = verifI64("start"), verifI64("ln")
+		verifAssume(!(start >= 0 && start <= m.size && ln >= 0 && ln <= m.size-start))
+		return start, ln, false
+	}
+	a, b := c17RangeByIndex(size, mode-1)
+	return a, b - a, true
+}
 
+// c17SeedSet seeds 0..maxK distinct entries at arbitrary valid ranges (any mutual position:
+// disjoint, adjacent, overlapping, nested, empty). Entries are chosen in strictly increasing
+// enumeration order so that each set of ranges is built once.
+func c17SeedSet(rc *RangeCache, m *c17Remote, size, maxK int) {
 	k := verifChoice("entries", maxK+1)
 	prev := -1
 	for i := 0; i < k; i++ {
-		// entries in strictly increasing enumeration order: distinct ranges, each unordered
-		// set once (the map iteration order is explored separately)
-		idx := prev + 1 + verifChoice("range", c17NumRanges(size)-prev-1)
-		verifAssume(idx < c17NumRanges(size))
+		left := c17NumRanges(size) - prev - 1
+		verifAssume(left > 0)
+		idx := prev + 1 + verifChoice("range", left)
 		prev = idx
 		a, b := c17RangeByIndex(size, idx)
 		c17Seed(rc, m, a, b)
 	}
+}
+
+// C17.step — inductive step. Pre-state: a cache with 0..K entries at arbitrary valid ranges
+// satisfying the representation invariant (each value = the remote bytes at its range). One
+// operation with arbitrary arguments. Post: result as the property demands, the invariant still
+// holds, a refused or failed read leaves the set of cached ranges unchanged.
+func VerifC17Step() {
+	const id = "C17.step"
+	size := verifParam("size", 4)
+	rc, m := c17New(size, true)
+	ctx := context.Background()
+	c17SeedSet(rc, m, size, verifParam("entries", 2))
 	before := c17Keys(rc)
 	verifMapOrderNondet(true)
 
-	switch verifChoice("op", 3) {
-	case 0: // GetRange with arbitrary arguments
-		start, ln := verifI64("start"), verifI64("ln")
+	op := verifParam("op", -1)
+	if op < 0 {
+		op = verifChoice("op", 3)
+	}
+	switch op {
+	case 0: // GetRange
+		start, ln, _ := c17Args(m, size)
 		fails0 := m.fails
 		got, err := rc.GetRange(ctx, start, ln)
 		c17CheckGet(m, id, start, ln, got, err, fails0)
 		if err != nil {
 			c17SameKeys(rc, before, id+": a refused or failed read changed the set of cached ranges")
 		}
-		verifAssert(m.outside == 0, id+": the remote was asked for bytes outside the file")
 		verifReach("end-get")
-	case 1: // SetRange with arbitrary start and every value length 0..size+1
-		start := verifI64("start")
-		L := verifChoice("vlen", size+2)
-		ln := verifI64("ln")
-		valid := start >= 0 && start <= m.size && ln >= 0 && ln <= m.size-start
-		value := make([]byte, L)
-		if valid && ln == int64(L) {
-			// precondition of SetRange (caller's duty): the value is the remote content
-			s := verifConcInt(int(start))
-			copy(value, m.data[s:s+L])
-			err := rc.SetRange(ctx, start, ln, value)
-			verifAssert(err == nil, id+": SetRange of a valid range with the right value was refused")
-			// and reading it back gives the remote bytes
+	case 1: // SetRange
+		// Transparency does not say which SetRange calls are accepted, only that whatever is
+		// stored is right: the checks are the invariant afterwards and a read-back.
+		start, ln, valid := c17Args(m, size)
+		if valid {
+			// value length: right, one more, one less
+			L := int(ln) + []int{0, 1, -1}[verifChoice("vlen", 3)]
+			verifAssume(L >= 0)
+			value := make([]byte, L)
+			if L == int(ln) {
+				// precondition of SetRange (caller's duty): the value is the remote content
+				copy(value, m.data[start:start+ln])
+			} else {
+				// a value of the wrong length cannot be the content of that range: junk
+				copy(value, verifBytes("junk", L))
+			}
+			rc.SetRange(ctx, start, ln, value)
+			fails0 := m.fails
 			got, err := rc.GetRange(ctx, start, ln)
-			c17CheckGet(m, id, start, ln, got, err, m.fails)
-			verifReach("end-set-ok")
-		} else {
-			// wrong length or range not inside the file: must be refused and not stored
-			// (the value is junk that differs from the remote: all bytes arbitrary)
-			copy(value, verifBytes("junk", L))
-			err := rc.SetRange(ctx, start, ln, value)
-			verifAssert(err != nil, id+": SetRange with an invalid range or a value of the wrong length was accepted")
-			c17SameKeys(rc, before, id+": a refused SetRange changed the set of cached ranges")
-			verifReach("end-set-refused")
+			c17CheckGet(m, id, start, ln, got, err, fails0)
+			verifReach("end-set-valid")
+			break
 		}
+		L := verifChoice("vlen", 3)
+		value := make([]byte, L)
+		copy(value, verifBytes("junk", L))
+		rc.SetRange(ctx, start, ln, value)
+		verifReach("end-set-outside")
 	case 2: // expiry with an arbitrary maximum age; the age of every entry is arbitrary
 		maxAge := time.Duration(verifI64("max_age"))
 		rc.DeleteOldEntries(ctx, maxAge)
